@@ -683,7 +683,7 @@ impl Check for C03
 	}
 	fn rule(&self) -> String
 	{
-		"accepted modules from (a) the program generator, one third executable and two thirds decorated into compile-only modules (random pub flags, extern function heads, exported extern functions with ABI types, functions that never return with unreachable code behind the loop, modules without main, a main with parameters, wasm32 target), (b) generated executable programs split over 2-4 modules with the pub/import declarations the split needs, in a rotated file order, compiled through one Compiler and linked (only sets the compiler accepts; acceptance of splits is C12's subject), and (c) every file of the repository corpus that compiles on its own. Oracle: the textual IR of every module and of the linked program is accepted by `opt-14 -passes=verify` (all) and `llvm-as-14` (every 4th generated, all corpus) run as independent processes with empty stderr; every function with a body has exactly one `define`, main/pub/extern functions carry no private/internal linkage, heads are `declare`d; the linked IR of a module set defines every visible function of every module. Non-trivial: >= 2 functions or a struct/constant; distinct by source.".into()
+		"accepted modules from (a) the program generator, one third executable and two thirds decorated into compile-only modules (random pub flags, extern function heads, exported extern functions with ABI types, functions that never return with unreachable code behind the loop, modules without main, a main with parameters, wasm32 target), (b) generated executable programs split over 2-4 modules with the pub/import declarations the split needs, in a rotated file order, compiled through one Compiler and linked (only sets the compiler accepts; acceptance of splits is C12's subject), (c) every file of the repository corpus that compiles on its own, and (d) each bundled `core:` / `vendor:` library module next to a main module that imports it and calls none, one or two of its functions, library first or last (16 sets). Oracle: the textual IR of every module and of the linked program is accepted by `opt-14 -passes=verify` (all) and `llvm-as-14` (every 4th generated, all corpus) run as independent processes with empty stderr; every function with a body has exactly one `define`, main/pub/extern functions carry no private/internal linkage, heads are `declare`d; the linked IR of a module set defines every visible function of every module, bundled libraries included. Non-trivial: >= 2 functions or a struct/constant; distinct by source.".into()
 	}
 	fn assumptions(&self) -> Vec<String>
 	{
